@@ -376,11 +376,18 @@ def execute(h):
     n_cur = len(curs)
     clock_fault = {}    # id of spec -> fault mode armed for the next read
 
+    class NamedConverter(MoneyConverter):
+        """a MoneyConverter is a MoneyConverter, also when sub-classed"""
+        name = 'house rates'
+
     def build_mconv(spec, scale=1):
         base = curs[spec['base'] % n_cur]
         kind = spec.get('kind', 'none')
         if kind == 'none':
-            mc = MoneyConverter(base)
+            # (every other one an instance of a sub-class: a converter
+            # with a name, say)
+            mc = (NamedConverter if spec['base'] % 2 else
+                  MoneyConverter)(base)
             validity = None
         else:
             def dflt_date(key=id(spec)):
